@@ -21,7 +21,9 @@ def pyStr : J → String
   | .int i => toString i
   | .float tok _ => tok
   | .str s => s
-  | .arr _ => "?"
+  | .arr .nil => "[]"
+  | .obj .nil => "{}"
+  | .arr _ => "?"        -- non-empty containers as names are not generated (their `str()` needs Python's repr of strings)
   | .obj _ => "?"
 
 /-- `state["__module__"]` / `state["__class__"]`: normally a string, but any JSON value is stored -/
